@@ -64,6 +64,17 @@ template <typename C> std::string inv(long long x0, long long n, long long step)
 static float f_of(unsigned long long b) { uint32_t u = (uint32_t)b; float f; std::memcpy(&f, &u, 4); return f; }
 static unsigned long long b_of(float f) { uint32_t u; std::memcpy(&u, &f, 4); return u; }
 
+// scoped channels (a provided channel model): sub-range of a base type, minimum not zero
+struct s8_min { static uint8_t apply() { return 16; } };      struct s8_max { static uint8_t apply() { return 235; } };
+struct s16_min { static uint16_t apply() { return 1000; } };  struct s16_max { static uint16_t apply() { return 60000; } };
+struct si16_min { static int16_t apply() { return -100; } };  struct si16_max { static int16_t apply() { return 1000; } };
+struct su32_min { static uint32_t apply() { return 7; } };    struct su32_max { static uint32_t apply() { return 4000000000u; } };
+using s8_t = gil::scoped_channel_value<uint8_t, s8_min, s8_max>;
+using s16_t = gil::scoped_channel_value<uint16_t, s16_min, s16_max>;
+using si16_t = gil::scoped_channel_value<int16_t, si16_min, si16_max>;
+using su32_t = gil::scoped_channel_value<uint32_t, su32_min, su32_max>;
+#define SCOPED(X) X("s8", s8_t) X("s16", s16_t) X("si16", si16_t) X("su32", su32_t)
+
 #define TYPES(X) X("u8", uint8_t) X("u16", uint16_t) X("u32", uint32_t) X("i8", int8_t) X("i16", int16_t) X("i32", int32_t) \
   X("p1", gil::packed_channel_value<1>) X("p2", gil::packed_channel_value<2>) X("p3", gil::packed_channel_value<3>) X("p4", gil::packed_channel_value<4>) \
   X("p5", gil::packed_channel_value<5>) X("p6", gil::packed_channel_value<6>) X("p7", gil::packed_channel_value<7>) X("p8", gil::packed_channel_value<8>) \
@@ -83,7 +94,7 @@ int main() {
         if (w.size() == 5 && w[0] == "inv") {
             long long x0 = hv::to_ll(w[2]), n = hv::to_ll(w[3]), st = hv::to_ll(w[4]);
 #define X(name, T) if (w[1] == name) return inv<T>(x0, n, st);
-            TYPES(X)
+            TYPES(X) SCOPED(X)
 #undef X
         }
         if (w.size() == 2 && w[0] == "mulall") {
